@@ -62,6 +62,10 @@ def add_noise(e: ESpec):
         # non-string doc attributes must not disturb attribute collection
         if r & 8:
             e.extra.setdefault('variant_attrs', {}).setdefault(v.ident, []).append(['#[doc(hidden)]', '#[doc(alias = "noise")]'][k % 2])
+    if e.err and 'err_form' not in e.extra:
+        e.extra['err_form'] = ['plain', 'path', 'generic'][(h >> 62) % 3]
+    if 'gen_default' not in e.extra:
+        e.extra['gen_default'] = bool((h >> 60) & 1)
     if 'eattr_layout' not in e.extra:
         e.extra['eattr_layout'] = ['one', 'split', 'rev', 'revsplit'][(h >> 48) % 4]
     # attributes of other tools on the enum and on variants
